@@ -256,6 +256,12 @@ func (w *scribbleWorld) Exec(p *Plan, st *RunStats) *Violation {
 					}
 				}
 				s.Step(op, o) // passed slices are scribbled right after the call, before the comparison
+				if ad, ok := s.(interface{ ArgDamage() string }); ok {
+					// "are copied": the callee only reads the caller's slice
+					if dmg := ad.ArgDamage(); dmg != "" {
+						o.Fail("C16", "argument-modified", "%s changed the slice it was given: %s", op, dmg)
+					}
+				}
 			}
 		})
 		if traceOn {
